@@ -18,7 +18,7 @@ Check appended_transparent :
   forall tpes (opss : list (list enc_op)) (encs : list encoder) first others e blocks ttb,
   nth_error tpes id = Some (EncBits bits) ->
   Forall2 (fun ops en => run_ops parse_f64 lz_compress cap (enc_new tpes) ops = Ok en) opss encs ->
-  Forall (fun ops => Forall (op_ok id) ops /\ N.of_nat (count_vcd id ops) * (10 + N.of_nat bits) < 4294967264) opss ->
+  Forall (fun ops => Forall (op_ok id bits) ops /\ N.of_nat (count_vcd id ops) * (10 + N.of_nat bits) < 4294967264) opss ->
   encs = first :: others ->
   append_all lz_compress first others = Ok e ->
   enc_finish lz_compress e = Ok (blocks, ttb) -> N.of_nat (length ttb) < 4294967296 ->
